@@ -112,7 +112,7 @@ Consume ==
                                 \o (IF e.patched = <<>> \/ e.patched = <<-1>> THEN <<>> ELSE <<V(k, "residual_patch_after_release", e.cmd, <<>>, e.patched)>>)
                                 \o (IF e.dr_armed THEN <<V(k, "debug_register_left_armed", e.cmd, "L/G bits clear", e.err)>> ELSE <<>>)
                                 \o (IF e.code = ExitCode \/ e.code = -1 THEN <<>> ELSE <<V(k, "wrong_exit_code", e.cmd, ExitCode, e.code)>>)
-          [] e.cmd \in {"call", "watch"} /\ ti \in 1..N ->
+          [] e.cmd \in {"call", "watch", "frame"} /\ ti \in 1..N ->
                \* C02/C16: the program has not moved and nothing is left in its code
                /\ UNCHANGED <<ti, tbp>>
                /\ viol' = viol \o (IF ~e.ok THEN <<V(k, "command_failed", e.cmd, "ok", e.err)>> ELSE <<>>)
